@@ -4,6 +4,11 @@
      asynq/tools.py 341-382   DeduplicateDecorator: tasks (343), cache_key (349-350),
                               asynq (355-378: lookup 361-363, create + callback + subscribe 364-371,
                               running-task escape hatch 372-378), dirty (380-382)
+                              id(self.fn) in cache_key: self.fn is the function object wrapped by
+                              this DeduplicateDecorator; every execution of a `def` under
+                              @deduplicate() (a factory called again, a name defined again) makes
+                              a new function object and a new decorator, all sharing the one
+                              class-level `tasks` dict (343) - modelled by (cfn, cgen)
      asynq/tools.py 415-426   default keygetter: arg_names = args + kwonlyargs, get_kwargs_defaults
      asynq/decorators.py      AsyncDecoratorBinder.asynq / DeduplicateDecoratorBinder.dirty (tools.py
                               333-338): a bound method passes its instance as the first positional
@@ -33,7 +38,9 @@ From Asynq Require Export Base.
 
 Definition name := Z.    (* parameter names; the harness maps 0.. to self a b c d x y z (sorted alike) *)
 
-Inductive aval := AInt (z : Z) | ANone | AInst (i : Z).
+(* AInst g i: the i-th instance of the class object produced by the g-th execution of the class
+   statement (see `cgen` below); instances have identity equality *)
+Inductive aval := AInt (z : Z) | ANone | AInst (g i : Z).
 
 Definition aval_eq_dec : forall a b : aval, {a = b} + {a <> b}.
 Proof. decide equality; apply Z.eq_dec. Defined.
@@ -149,7 +156,11 @@ Definition sig_of (fn : Z) : sig := nth (Z.to_nat fn) sigs (mkSig [] [] [] false
 
 Record callspec := mkCall {
   cthread : Z;                    (* threading.current_thread()                              *)
-  cfn : Z;                        (* id(self.fn): one per decorated function                 *)
+  cfn : Z;                        (* which def statement (module + qualname) the function is  *)
+  cgen : Z;                       (* which execution of that def statement produced the function
+                                     object: a factory invoked again / the name defined again in
+                                     the same scope gives a new function object (and a new
+                                     DeduplicateDecorator) with the same __module__/__qualname__ *)
   cinst : Z;                      (* instance the method is looked up on (methods only)      *)
   cpos : list aval;
   ckw : list (name * aval)
@@ -157,21 +168,29 @@ Record callspec := mkCall {
 
 (* binder: the instance is prepended to the positional arguments (decorators.py, tools.py 333-338) *)
 Definition full_pos (c : callspec) : list aval :=
-  if Z.eqb (cfn c) 4 then AInst (cinst c) :: cpos c else cpos c.
+  if Z.eqb (cfn c) 4 then AInst (cgen c) (cinst c) :: cpos c else cpos c.
 
-Definition key := (list kelt * Z * Z)%type.          (* tools.py 350: (keygetter(..), thread, id(fn)) *)
+(* id(self.fn) (tools.py 350): one per function OBJECT, i.e. per (def statement, execution of it) *)
+Definition fid := (Z * Z)%type.
+Definition fid_of (c : callspec) : fid := (cfn c, cgen c).
+
+Definition key := (list kelt * Z * fid)%type.        (* tools.py 350: (keygetter(..), thread, id(fn)) *)
 
 Definition key_of (v : variant) (c : callspec) : option key :=
   match keygetter v (sig_of (cfn c)) (full_pos c) (ckw c) with
   | None => None
-  | Some n => Some (n, cthread c, cfn c)
+  | Some n => Some (n, cthread c, fid_of c)
   end.
 Definition bind_of (c : callspec) := bind (sig_of (cfn c)) (full_pos c) (ckw c).
 
 Definition kelt_eq_dec : forall a b : kelt, {a = b} + {a <> b}.
 Proof. decide equality; try apply aval_eq_dec; try apply Z.eq_dec. apply (list_eq_dec aval_eq_dec). Defined.
 Definition key_eq_dec : forall a b : key, {a = b} + {a <> b}.
-Proof. decide equality; try apply Z.eq_dec. decide equality; try apply Z.eq_dec. apply (list_eq_dec kelt_eq_dec). Defined.
+Proof.
+  decide equality.
+  - decide equality; apply Z.eq_dec.
+  - decide equality; [apply Z.eq_dec|apply (list_eq_dec kelt_eq_dec)].
+Defined.
 
 (* ---------------------------------------------------------------- the deduplicate state machine *)
 Inductive status := Created | Running | Gated | Done.
@@ -294,14 +313,14 @@ Fixpoint run_micro (v : variant) (st : state) (acts : list action) : state * lis
 (* ---------------------------------------------------------------- the driver (correspondence) *)
 Inductive bstep :=
 | BGate                                                     (* yield a harness batch item        *)
-| BCall (fn inst : Z) (pos : list aval) (kw : list (name * aval))    (* .asynq() from inside the body *)
-| BDirty (fn inst : Z) (pos : list aval) (kw : list (name * aval)).
+| BCall (fn gen inst : Z) (pos : list aval) (kw : list (name * aval))    (* .asynq() from inside the body *)
+| BDirty (fn gen inst : Z) (pos : list aval) (kw : list (name * aval)).
 Inductive fin := Ret (z : Z) | Raise (e : exn).
 Definition script := (list bstep * fin)%type.
 
 Inductive op :=
-| OCall (thread fn inst : Z) (pos : list aval) (kw : list (name * aval))
-| ODirty (thread fn inst : Z) (pos : list aval) (kw : list (name * aval))
+| OCall (thread fn gen inst : Z) (pos : list aval) (kw : list (name * aval))
+| ODirty (thread fn gen inst : Z) (pos : list aval) (kw : list (name * aval))
 | OGo                                                       (* hand the created tasks to the scheduler *)
 | OFlush (e : nat).                                         (* let body execution e pass its gate      *)
 
@@ -349,10 +368,10 @@ Fixpoint run_steps (v : variant) (d : dstate) (t e : nat) (steps : list bstep) (
   | BGate :: rest =>
     let '(s', _) := micro v (core d) (AGate t) in
     mkD s' (nexec d) (gated d ++ [(e, (t, (rest, f)))]) (fresh d) (callers d) (ncall d) (trace d)
-  | BCall fn inst pos kw :: rest =>
-    run_steps v (d_call v d (Z.of_nat e) (mkCall 0 fn inst pos kw)) t e rest f
-  | BDirty fn inst pos kw :: rest =>
-    run_steps v (d_dirty v d (Z.of_nat e) (mkCall 0 fn inst pos kw)) t e rest f
+  | BCall fn gen inst pos kw :: rest =>
+    run_steps v (d_call v d (Z.of_nat e) (mkCall 0 fn gen inst pos kw)) t e rest f
+  | BDirty fn gen inst pos kw :: rest =>
+    run_steps v (d_dirty v d (Z.of_nat e) (mkCall 0 fn gen inst pos kw)) t e rest f
   end.
 
 Definition d_start (v : variant) (scripts : list script) (d : dstate) (t : nat) : dstate :=
@@ -401,8 +420,8 @@ Fixpoint skip_invalid (d : dstate) (ops : list op) : list op :=
 (* one conductor turn: the maximal run of Call / Dirty ops, then an optional OGo *)
 Fixpoint d_group (v : variant) (d : dstate) (ops : list op) : dstate * list op :=
   match ops with
-  | OCall th fn inst pos kw :: ops' => d_group v (d_call v d (-1) (mkCall th fn inst pos kw)) ops'
-  | ODirty th fn inst pos kw :: ops' => d_group v (d_dirty v d (-1) (mkCall th fn inst pos kw)) ops'
+  | OCall th fn gen inst pos kw :: ops' => d_group v (d_call v d (-1) (mkCall th fn gen inst pos kw)) ops'
+  | ODirty th fn gen inst pos kw :: ops' => d_group v (d_dirty v d (-1) (mkCall th fn gen inst pos kw)) ops'
   | OGo :: ops' => (d, ops')
   | _ => (d, ops)
   end.
